@@ -23,4 +23,27 @@ mod verif_witness_c10 {
         }
         assert_eq!(bad, 0, "fifty-move threshold misplaced for {} clock values", bad);
     }
+
+    /// terminal positions: mate is mate and stalemate is stalemate whatever the half-move clock says
+    #[test]
+    fn verif_witness_c10_terminal() {
+        let h = SimpleHeuristic {};
+        let mut bad = 0;
+        for clock in [0u32, 1, 50, 99, 100, 101, 150] {
+            for (fen, expected) in [
+                (format!("6k1/8/8/8/8/8/5PPP/3r2K1 w - - {} 80", clock), h.loss_score() + 80),   // white is mated
+                (format!("3R2k1/5ppp/8/8/8/8/8/6K1 b - - {} 80", clock), h.win_score() - 80),    // black is mated
+                (format!("7k/5Q2/6K1/8/8/8/8/8 b - - {} 80", clock), h.draw_score()),             // black is stalemated
+            ] {
+                let mut board = Bitboard::from_fen_string_unchecked(&fen);
+                assert!(board.generate_legal_moves().is_empty(), "probe position has legal moves: {}", fen);
+                let value = h.evaluate(&board, 0, false);
+                if value != expected {
+                    if bad < 3 { println!("FAILING-INPUT: fen={:?} evaluate(no legal moves)={} expected={}", fen, value, expected); }
+                    bad += 1;
+                }
+            }
+        }
+        assert_eq!(bad, 0, "terminal positions misvalued {} times", bad);
+    }
 }
